@@ -200,6 +200,7 @@ class System:
         if r.is_err():
             raise RuntimeError("generated schema rejected: " + repr(r.err()) + "\n" + self.src)
         self.fcp = r.unwrap()
+        self.pristine = copy.deepcopy(self.fcp)
         self.enums, self.structs = S.index(decls)
         # bindings: the explicit impls, then the default impl of every struct
         self.bindings = []
@@ -218,6 +219,15 @@ class System:
 
     def new_encoder(self, unroll: bool):
         return self.E.make_encoder("packed", self.fcp, self.E.PackedEncoderContext().with_unroll_arrays(unroll))
+
+    def pristine_layout(self, bi: int, unroll: bool):
+        """Layout of binding bi by a brand-new encoder on a brand-new copy of the tree as it was right after parsing
+        (so that neither encoder state nor a tree mutated by earlier calls can hide a history dependence)."""
+        t = copy.deepcopy(self.pristine)
+        name, proto, typ, _ = self.bindings[bi]
+        impl = [i for i in t.impls if i.name == name and i.protocol == proto and i.type == typ][0]
+        enc = self.E.make_encoder("packed", t, self.E.PackedEncoderContext().with_unroll_arrays(unroll))
+        return enc.generate(impl)
 
 
 def snap(values):
@@ -251,10 +261,15 @@ def classify_layout_diff(got, want, sysm, sname, unroll):
     wn = [w[0] for w in want]
     if len(set(gn)) != len(gn):
         return "duplicate_names", f"leaf names are not unique: {gn}"
-    if sorted(gn) != sorted(wn):
-        return "leaf_names", f"leaves {gn} != expected {wn}"
-    if gn != wn:
-        return "field_id_order", f"order {gn} != ascending-id order {wn}"
+    if len(gn) != len(wn):
+        return "leaf_names", f"{len(gn)} leaves {gn}, expected {len(wn)}: {wn}"
+    # The property fixes WHICH leaf comes where, not how hierarchical names are spelled ("a::b", "a.b", "b[0]"...):
+    # the k-th leaf must stand for the k-th field of the reference order, i.e. mention that field's declared name.
+    own = [w[3] for w in want]
+    if any(o not in g for o, g in zip(own, gn)):
+        if sorted(gn) == sorted(wn) or all(any(o in g for g in gn) for o in own):
+            return "field_id_order", f"order {gn} != ascending-id order {wn}"
+        return "leaf_names", f"leaves {gn} do not stand for the fields {wn}"
     for g, w in zip(got, want):
         if g[2] != w[2]:
             kind = leaf_type_kind(sysm, sname, w[0], unroll)
@@ -413,11 +428,11 @@ def execute(decls, ops, probes=None, tr=None, distinct=None, shape=None):
         if cls:
             viol.append(("wrong_layout", cls, f"op {oi}: {name}/{proto} unroll={unroll}: {msg}", oi))
         # 2. history independence
-        fresh_vals = sysm.new_encoder(unroll).generate(sysm.impls[bi])
+        fresh_vals = sysm.pristine_layout(bi, unroll)
         if snap(fresh_vals) != got:
             d = [(a, b) for a, b in zip(got, snap(fresh_vals)) if a != b][:2]
             viol.append(("history_dependence", "vs_fresh_encoder",
-                         f"op {oi}: {name}/{proto} on the reused encoder {e} differs from a brand-new encoder: {d} "
+                         f"op {oi}: {name}/{proto} on the reused encoder {e} differs from a brand-new encoder on a freshly parsed tree: {d} "
                          f"(lengths {len(got)}/{len(fresh_vals)})", oi))
         # 4. option isolation
         if not cls:
